@@ -233,6 +233,7 @@ fn search_selection<T: Search>(
 
 fn search_assignment<T: Search>(
     target: &WithTokenSpan<Target>,
+    delay_mechanism: &Option<WithTokenSpan<DelayMechanism>>,
     rhs: &AssignmentRightHand<T>,
     searcher: &mut impl Searcher,
     ctx: &dyn TokenAccess,
@@ -240,10 +241,12 @@ fn search_assignment<T: Search>(
     match rhs {
         AssignmentRightHand::Simple(item) => {
             return_if_found!(target.search(ctx, searcher));
+            return_if_found!(delay_mechanism.search(ctx, searcher));
             item.search(ctx, searcher)
         }
         AssignmentRightHand::Conditional(conditionals) => {
             return_if_found!(target.search(ctx, searcher));
+            return_if_found!(delay_mechanism.search(ctx, searcher));
             search_conditionals(conditionals, true, searcher, ctx)
         }
         AssignmentRightHand::Selected(selection) => {
@@ -255,6 +258,7 @@ fn search_assignment<T: Search>(
             // expression comes before target
             return_if_found!(expression.search(ctx, searcher));
             return_if_found!(target.search(ctx, searcher));
+            return_if_found!(delay_mechanism.search(ctx, searcher));
             search_alternatives(alternatives, true, searcher, ctx)
         }
     }
@@ -403,13 +407,22 @@ impl Search for LabeledSequentialStatement {
                 }
             }
             SequentialStatement::SignalAssignment(ref assign) => {
-                // @TODO more
-                let SignalAssignment { target, rhs, .. } = assign;
-                return_if_found!(search_assignment(target, rhs, searcher, ctx));
+                let SignalAssignment {
+                    target,
+                    delay_mechanism,
+                    rhs,
+                } = assign;
+                return_if_found!(search_assignment(
+                    target,
+                    delay_mechanism,
+                    rhs,
+                    searcher,
+                    ctx
+                ));
             }
             SequentialStatement::VariableAssignment(ref assign) => {
                 let VariableAssignment { target, rhs } = assign;
-                return_if_found!(search_assignment(target, rhs, searcher, ctx));
+                return_if_found!(search_assignment(target, &None, rhs, searcher, ctx));
             }
             SequentialStatement::SignalForceAssignment(ref assign) => {
                 let SignalForceAssignment {
@@ -417,7 +430,7 @@ impl Search for LabeledSequentialStatement {
                     force_mode: _,
                     rhs,
                 } = assign;
-                return_if_found!(search_assignment(target, rhs, searcher, ctx));
+                return_if_found!(search_assignment(target, &None, rhs, searcher, ctx));
             }
             SequentialStatement::SignalReleaseAssignment(ref assign) => {
                 let SignalReleaseAssignment {
@@ -582,6 +595,7 @@ impl Search for LabeledConcurrentStatement {
                 let ConcurrentSignalAssignment { assignment, .. } = assign;
                 return_if_found!(search_assignment(
                     &assignment.target,
+                    &assignment.delay_mechanism,
                     &assignment.rhs,
                     searcher,
                     ctx
@@ -733,14 +747,38 @@ impl Search for WithTokenSpan<SubtypeConstraint> {
     }
 }
 
+impl Search for ResolutionIndication {
+    fn search(&self, ctx: &dyn TokenAccess, searcher: &mut impl Searcher) -> SearchResult {
+        match self {
+            ResolutionIndication::FunctionName(name) => {
+                return_if_found!(name.search(ctx, searcher));
+            }
+            ResolutionIndication::Element(element) => {
+                return_if_finished!(searcher.search_with_pos(ctx, &element.pos(ctx)));
+                match element.item {
+                    ElementResolution::Array(ref resolution) => {
+                        return_if_found!(resolution.search(ctx, searcher));
+                    }
+                    ElementResolution::Record(ref resolutions) => {
+                        for RecordElementResolution { resolution, .. } in resolutions {
+                            return_if_found!(resolution.search(ctx, searcher));
+                        }
+                    }
+                }
+            }
+        }
+        NotFound
+    }
+}
+
 impl Search for SubtypeIndication {
     fn search(&self, ctx: &dyn TokenAccess, searcher: &mut impl Searcher) -> SearchResult {
-        // @TODO more
         let SubtypeIndication {
+            resolution,
             type_mark,
             constraint,
-            ..
         } = self;
+        return_if_found!(resolution.search(ctx, searcher));
         return_if_found!(type_mark.search(ctx, searcher));
         return_if_found!(constraint.search(ctx, searcher));
         NotFound
@@ -1032,6 +1070,18 @@ impl Search for CallOrIndexed {
         let CallOrIndexed { name, parameters } = self;
         return_if_found!(name.search(ctx, searcher));
         return_if_found!(parameters.search(ctx, searcher));
+        NotFound
+    }
+}
+
+impl Search for WithTokenSpan<DelayMechanism> {
+    fn search(&self, ctx: &dyn TokenAccess, searcher: &mut impl Searcher) -> SearchResult {
+        match self.item {
+            DelayMechanism::Transport => {}
+            DelayMechanism::Inertial { ref reject } => {
+                return_if_found!(reject.search(ctx, searcher));
+            }
+        }
         NotFound
     }
 }
